@@ -487,10 +487,16 @@ typedargslist:
 	}
 |	tfpdeftests1 ',' '*' optional_tfpdef tfpdeftests
 	{
+		if $4 == nil && len($5) == 0 {
+			yylex.(*yyLex).SyntaxError("named arguments must follow bare *")
+		}
 		$$ = &ast.Arguments{Pos: $<pos>$, Args: $1, Defaults: $<exprs>1, Vararg: $4, Kwonlyargs: $5, KwDefaults: $<exprs>5}
 	}
 |	tfpdeftests1 ',' '*' optional_tfpdef tfpdeftests ',' STARSTAR tfpdef
 	{
+		if $4 == nil && len($5) == 0 {
+			yylex.(*yyLex).SyntaxError("named arguments must follow bare *")
+		}
 		$$ = &ast.Arguments{Pos: $<pos>$, Args: $1, Defaults: $<exprs>1, Vararg: $4, Kwonlyargs: $5, KwDefaults: $<exprs>5, Kwarg: $8}
 	}
 |	tfpdeftests1 ',' STARSTAR tfpdef
@@ -499,10 +505,16 @@ typedargslist:
 	}
 |	'*' optional_tfpdef tfpdeftests
 	{
+		if $2 == nil && len($3) == 0 {
+			yylex.(*yyLex).SyntaxError("named arguments must follow bare *")
+		}
 		$$ = &ast.Arguments{Pos: $<pos>$, Vararg: $2, Kwonlyargs: $3, KwDefaults: $<exprs>3}
 	}
 |	'*' optional_tfpdef tfpdeftests ',' STARSTAR tfpdef
 	{
+		if $2 == nil && len($3) == 0 {
+			yylex.(*yyLex).SyntaxError("named arguments must follow bare *")
+		}
 		$$ = &ast.Arguments{Pos: $<pos>$, Vararg: $2, Kwonlyargs: $3, KwDefaults: $<exprs>3, Kwarg: $6}
 	}
 |	STARSTAR tfpdef
@@ -582,10 +594,16 @@ varargslist:
 	}
 |	vfpdeftests1 ',' '*' optional_vfpdef vfpdeftests
 	{
+		if $4 == nil && len($5) == 0 {
+			yylex.(*yyLex).SyntaxError("named arguments must follow bare *")
+		}
 		$$ = &ast.Arguments{Pos: $<pos>$, Args: $1, Defaults: $<exprs>1, Vararg: $4, Kwonlyargs: $5, KwDefaults: $<exprs>5}
 	}
 |	vfpdeftests1 ',' '*' optional_vfpdef vfpdeftests ',' STARSTAR vfpdef
 	{
+		if $4 == nil && len($5) == 0 {
+			yylex.(*yyLex).SyntaxError("named arguments must follow bare *")
+		}
 		$$ = &ast.Arguments{Pos: $<pos>$, Args: $1, Defaults: $<exprs>1, Vararg: $4, Kwonlyargs: $5, KwDefaults: $<exprs>5, Kwarg: $8}
 	}
 |	vfpdeftests1 ',' STARSTAR vfpdef
@@ -594,10 +612,16 @@ varargslist:
 	}
 |	'*' optional_vfpdef vfpdeftests
 	{
+		if $2 == nil && len($3) == 0 {
+			yylex.(*yyLex).SyntaxError("named arguments must follow bare *")
+		}
 		$$ = &ast.Arguments{Pos: $<pos>$, Vararg: $2, Kwonlyargs: $3, KwDefaults: $<exprs>3}
 	}
 |	'*' optional_vfpdef vfpdeftests ',' STARSTAR vfpdef
 	{
+		if $2 == nil && len($3) == 0 {
+			yylex.(*yyLex).SyntaxError("named arguments must follow bare *")
+		}
 		$$ = &ast.Arguments{Pos: $<pos>$, Vararg: $2, Kwonlyargs: $3, KwDefaults: $<exprs>3, Kwarg: $6}
 	}
 |	STARSTAR vfpdef
